@@ -266,6 +266,10 @@ def coverage(run, results, mm, ff):
 
 def check(run):
     run.proof_stage()
+    if not run.proof_ok():
+        # the Coq build is shared (translators and make run for the whole development under a lock): retry once so
+        # that a transient failure outside this property's files is not reported as a broken obligation
+        run.proof_stage()
     ok, out = vlib.build_harness(['c03'])
     if not ok:
         run.violation(dict(kind='harness-build-failed', log=out[-3000:],
